@@ -788,7 +788,7 @@ def dump_behaviours(spec_dir: Path, module: str, cfg: str, tag: str, var: str = 
     out = []
     if dump_path.exists():
         text = dump_path.read_text()
-        for m in re.finditer(r"/\\ " + var + r" = (.*?)(?=\n/\\ |\n\nState |\Z)", text, re.S):
+        for m in re.finditer(r"(?:/\\ |^)" + var + r" = (.*?)(?=\n/\\ |\n\nState |\Z)", text, re.S | re.M):
             v = parse_tla(m.group(1).strip())
             if v:
                 out.append(v)
